@@ -76,6 +76,19 @@ Definition feed1 (g : cfg) (ps : pst) (t : nat) (rest : list nat) : nat + pst :=
                if negb (Bool.eqb accepted want_acc) then inl 11
                else do g ps (if woken ps then Run else Arrive) 18
                        (fun ps' => inr {| ms := ms ps'; woken := false; skip_dec := true; absorb_n := absorb_n ps' |})
+           | Some 6 | Some 7 =>
+               if woken ps then
+                 (* a resumed waiter finds the ledger still full and its patience used up: wait_for(..., timeout <= 0) never
+                    starts the wait; it leaves at once, passing the notification on - in the model: waits again, is
+                    cancelled, leaves *)
+                 if b (ms ps) <? cap g then inl 11
+                 else do g ps Run 18 (fun ps1 =>
+                      do g ps1 FutCancel 14 (fun ps2 =>
+                      let w_then := w (ms ps2) in
+                      do g ps2 Leave 15 (fun ps3 =>
+                        inr {| ms := ms ps3; woken := false; skip_dec := false;
+                               absorb_n := Some (if 0 <? w_then then 1 else 0) |})))
+               else inr ps
            | _ => if woken ps then inl 12 else inr ps       (* an observation only (a rejection, the size in an error message) *)
            end
   end.
